@@ -308,6 +308,8 @@ impl TerminalRenderer {
         // - Erase changed images
         // - Record images that we need to render
         let pixels_per_cell = self.size.pixels_per_cell();
+        // cell that has just been covered by a repainted wide character
+        let mut recovered: Option<Position> = None;
         for ((pos, old), new) in self.back.iter().with_position().zip(self.front.iter_mut()) {
             // replace glyphs with images
             if let CellKind::Glyph(glyph) = &new.kind {
@@ -322,14 +324,23 @@ impl TerminalRenderer {
                 new.kind = CellKind::Image(image);
             }
 
-            // a character that is itself covered (it is behind a wide character
-            // or under an image) is not shown, the columns behind it are not its
-            // own, they only need to be repainted if it was shown before
+            // A character that is itself covered (it is behind a wide character
+            // or under an image) is not shown and does not own the columns behind
+            // it. They need to be repainted only when the character covering it
+            // has just been repainted, as it might have been shown before.
             let mark = self.marks.get(pos).copied().unwrap_or_default();
-            let new_mark = if mark == CellMark::Ignored && matches!(new.kind, CellKind::Char(_)) {
-                CellMark::Damaged
-            } else {
-                CellMark::Ignored
+            let hidden = mark == CellMark::Ignored && matches!(new.kind, CellKind::Char(_));
+            let covered_anew = recovered.take() == Some(pos);
+            let mark_new = |marks: &mut SurfaceOwned<CellMark>, new: &Cell| {
+                let (rows, cols) = cell_extent(new, pos, pixels_per_cell);
+                if !hidden {
+                    marks.view_mut(rows, cols).fill(CellMark::Ignored);
+                } else if covered_anew {
+                    marks.view_mut(rows, cols).fill_with(|_, mark| match mark {
+                        CellMark::Ignored => CellMark::Ignored,
+                        _ => CellMark::Damaged,
+                    });
+                }
             };
 
             // skip cells that have not changed, go over ignored items too as they
@@ -337,8 +348,7 @@ impl TerminalRenderer {
             if old == new && mark != CellMark::Damaged {
                 // cells under the image and behind the wide character need to
                 // be marked as ignored
-                let (rows, cols) = cell_extent(new, pos, pixels_per_cell);
-                self.marks.view_mut(rows, cols).fill(new_mark);
+                mark_new(&mut self.marks, new);
                 continue;
             }
 
@@ -353,8 +363,12 @@ impl TerminalRenderer {
             if let CellKind::Image(image) = &new.kind {
                 self.images.push((pos, new.face, image.clone()));
             }
-            let (rows, cols) = cell_extent(new, pos, pixels_per_cell);
-            self.marks.view_mut(rows, cols).fill(new_mark);
+            mark_new(&mut self.marks, new);
+            if let (false, CellKind::Char(character)) = (hidden, &new.kind) {
+                if character.width().unwrap_or(0) > 1 {
+                    recovered = Some(Position::new(pos.row, pos.col + 1));
+                }
+            }
         }
 
         // Second pass
